@@ -10,6 +10,7 @@
    script_size, ext.sat_data).  The ORDER of checks is the Rust order: the first error class
    is observable.  Hand-written; no proofs in this file. *)
 From Coq Require Export List Bool NArith.
+From Coq Require Import MSetPositive.
 Export ListNotations.
 From Verif Require Export Types.
 Local Open Scope N_scope.
@@ -245,10 +246,13 @@ Definition vkeys (n : node) : list keyinfo :=
   end.
 Definition all_keys (ns : list node) : list keyinfo := flat_map vkeys ns.
 
-(* analyzable.rs has_repeated_keys: iter_pk().count() != iter_pk().collect::<BTreeSet<_>>().len() *)
+(* analyzable.rs has_repeated_keys: iter_pk().count() != iter_pk().collect::<BTreeSet<_>>().len();
+   the BTreeSet is a set of key identities (stdlib trie set on positive numbers) *)
+Definition key_set (ids : list N) : PositiveSet.t :=
+  fold_right (fun i acc => PositiveSet.add (N.succ_pos i) acc) PositiveSet.empty ids.
 Definition has_repeated_keys (s : summary) : bool :=
   let ids := map k_id (all_keys (s_nodes s)) in
-  negb (N.of_nat (length (nodup N.eq_dec ids)) =? N.of_nat (length ids)).
+  negb (N.of_nat (PositiveSet.cardinal (key_set ids)) =? N.of_nat (length ids)).
 
 (* ------------------------------------------------------------------ validation errors *)
 Inductive verr :=
